@@ -115,9 +115,10 @@ def observe_params():
 
 
 def _model_part(args, budget=120):
-    sx_trees, fuel, limit, p = args
+    sx_trees, fuel, limit, p = args[:4]
+    mode = args[4] if len(args) > 4 else "run"
     inp = " ".join(str(x) for x in p) + " %d %d\n" % (fuel, limit) + "".join(t + "\n" for t in sx_trees)
-    rc, out, err = common.run(["bash", "-c", "ulimit -s 4000000 2>/dev/null; ulimit -v 12000000; exec %s run" % common.model_bin()],
+    rc, out, err = common.run(["bash", "-c", "ulimit -s 4000000 2>/dev/null; ulimit -v 12000000; exec %s %s" % (common.model_bin(), mode)],
                               input=inp, timeout=budget)
     lines = out.split("\n")
     if lines and lines[-1] == "":
@@ -132,11 +133,11 @@ def _model_part(args, budget=120):
         else:
             res.append(("MODELERR:died rc=%s %s" % (rc, err[-200:].replace("\n", " ")), []))
         if k + 1 < len(sx_trees):
-            res += _model_part((sx_trees[k + 1:], fuel, limit, p), budget)
+            res += _model_part((sx_trees[k + 1:], fuel, limit, p, mode), budget)
     return res
 
 
-def run_model(sx_trees, fuel=FUEL, limit=LIMIT):
+def run_model(sx_trees, fuel=FUEL, limit=LIMIT, mode="run"):
     from concurrent.futures import ThreadPoolExecutor
     p = _PARAMS or observe_params()
     if not sx_trees:
@@ -145,7 +146,7 @@ def run_model(sx_trees, fuel=FUEL, limit=LIMIT):
     size = max(1, min(300, (len(sx_trees) + jobs - 1) // jobs))
     parts = [sx_trees[i:i + size] for i in range(0, len(sx_trees), size)]
     with ThreadPoolExecutor(max_workers=jobs) as ex:
-        res = list(ex.map(_model_part, [(pt, fuel, limit, p) for pt in parts]))
+        res = list(ex.map(_model_part, [(pt, fuel, limit, p, mode) for pt in parts]))
     out = []
     for r in res:
         out += r
